@@ -224,6 +224,8 @@ def applyOn (d : Defects) (name : String) : Defects :=
   | "lazyScan" => { d with lazyScan := true }
   | "refDeletionUnmarked" => { d with refDeletionUnmarked := true }
   | "refDeletionTouchesRowWithoutRef" => { d with refDeletionTouchesRowWithoutRef := true }
+  | "ingestIgnoresTombstones" => { d with ingestIgnoresTombstones := true }
+  | "deletionBatchKeyedById" => { d with deletionBatchKeyedById := true }
   | _ => d
 
 def main : IO Unit := do
